@@ -55,6 +55,10 @@ def workloads(thorough):
         # other runs; afterwards Close has to return
         ("dup_sig", [R(1, sig=True), dict(id="r1d", **{"as": "r1"}, dup=True, beh="ok", sig=True, badsig=False), R(2)],
          dict(phases=[["r1", "r1d"], ["r2"]], close="end")),
+        # a result stored before its caller waits for it, then the fan-out of a run-less step-fatal error over it, then
+        # a slow and a fast run overlapping: the read loop must keep running for the slow one
+        ("nostep_then_overlap", [R(1), R(2, beh="nostep"), dict(id="r3", beh="ok", sig=False, badsig=False, after="r4"), R(4)],
+         dict(phases=[["r1", "r2"], ["r3", "r4"]], close="end")),
         ("dup_plain", [R(1), dict(id="r1d", **{"as": "r1"}, dup=True, beh="ok", sig=False, badsig=False), R(2)],
          dict(phases=[["r1", "r1d"], ["r2"]], close="race")),
     ]
@@ -235,7 +239,7 @@ def run(ctx):
                               workload=sc["workload"], delay_key=key, delay_nth=seen[key]))
     if not thorough:
         # quick tier: every gate occurrence of the first four workloads
-        delay = [d for d in delay if d["id"].split("/")[1] in ("serial3", "serial2sig", "serial2race", "parallel3", "nostep_par", "dup_sig")]
+        delay = [d for d in delay if d["id"].split("/")[1] in ("serial3", "serial2sig", "serial2race", "parallel3", "nostep_par", "dup_sig", "nostep_then_overlap")]
     else:
         # thorough tier: additionally pairs of held gate occurrences (i, j > i) per workload, sampled by the seed
         import random
@@ -347,7 +351,7 @@ def run(ctx):
     for key, sess in sorted(sessions.items()):
         sig, bad = key[0], key[1]
         nostep = key[2] if len(key) > 2 else ()
-        runs_all = ["r1", "r2", "r3"]
+        runs_all = ["r1", "r2", "r3", "r4"]
         ok, info = A.validate(ctx, sess, runs_all, 0, list(sig), list(bad), nostep=list(nostep))
         if ok:
             ctx.traces += len(sess)
